@@ -25,7 +25,8 @@ Id == <<<<1,0,0,0>>, <<0,1,0,0>>, <<0,0,1,0>>>>
 MatSeq == << <<<<1,0,0,2>>, <<0,1,0,0>>, <<0,0,1,-1>>>>,      \* translate
             <<<<2,0,0,0>>, <<0,1,0,0>>, <<0,0,-1,0>>>>,      \* scale / mirror
             <<<<0,-1,0,1>>, <<1,0,0,0>>, <<0,0,1,0>>>>,      \* rot90 + shift
-            <<<<1,1,0,0>>, <<0,1,0,0>>, <<0,0,1,0>>>> >>      \* shear
+            <<<<1,1,0,0>>, <<0,1,0,0>>, <<0,0,1,0>>>>,      \* shear
+            <<<<1,0,0,0>>, <<0,1,0,0>>, <<0,0,1,0>>>> >>      \* the identity: a remap like any other
 Mats == {MatSeq[i] : i \in 1..Len(MatSeq)}
 Row4(M, i) == IF i <= 3 THEN M[i] ELSE <<0,0,0,1>>
 MatMul(A, B) == [i \in 1..3 |-> [j \in 1..4 |->
